@@ -1131,4 +1131,290 @@ theorem final_rules_covered {w : World} {binds : List Bind} {p : PathIn} {r1 : A
             simp only [Bool.not_true, Bool.false_eq_true, if_false, rulesOf, covered]
             simpa using hw
 
+/-! ## 4. frontend placement (`buildHostAuthExternal`) -/
+
+theorem mem_usedFrontPorts {n : Nat} {frec : Nat → Option AuthRec} {P : Int} :
+    P ∈ usedFrontPorts n frec ↔ ∃ j r, j < n ∧ frec j = some r ∧ r.name = .proxy P := by
+  unfold usedFrontPorts
+  simp only [List.mem_filterMap, List.mem_range]
+  constructor
+  · rintro ⟨j, hj, h⟩
+    split at h
+    · rename_i r hr
+      split at h
+      · rename_i p hp
+        simp only [Option.some.injEq] at h
+        exact ⟨j, r, hj, hr, by rw [hp, h]⟩
+      · cases h
+    · cases h
+  · rintro ⟨j, r, hj, hr, h⟩
+    exact ⟨j, hj, by rw [hr]; simp [h]⟩
+
+/-- every `HostPath.AuthExt` was written by `buildHostAuthExternal` of the path's host from the
+host-level auth-url: it is the denied record, or names a port which — when the clean-up keeps
+frontend names — is bound to the backend of that URL -/
+def FrecInv (v : Variant) (w : World) (frec : Nat → Option AuthRec) (binds : List Bind) : Prop :=
+  ∀ i r, frec i = some r →
+    ∃ p u, w.paths[i]? = some p ∧ hostPlc w p.host = .frontend ∧ hostUrl w p.host = .val u ∧
+      (r = denyRec {} ∨ ∃ P, r = okRec {} P u (hostSignin w p.host) ∧
+        resolveTarget w.isExternal w.hasLua u = some u.target ∧
+        (v.usedFront = true → ⟨P, u.target⟩ ∈ binds))
+
+theorem frecInv_survive {v : Variant} {w : World} {st : St} {binds' : List Bind}
+    (h : FrecInv v w st.frec st.binds)
+    (hk : ∀ b ∈ st.binds, b.port ∈ usedOf v w st → b ∈ binds') :
+    FrecInv v w st.frec binds' := by
+  intro i r hr
+  obtain ⟨p, u, hp, hplc, hu, hshape⟩ := h i r hr
+  refine ⟨p, u, hp, hplc, hu, ?_⟩
+  rcases hshape with hd | ⟨P, hok, hres, hb⟩
+  · exact Or.inl hd
+  · refine Or.inr ⟨P, hok, hres, fun hv => hk _ (hb hv) ?_⟩
+    unfold usedOf
+    rw [if_pos hv]
+    exact List.mem_append_right _ (mem_usedFrontPorts.mpr ⟨i, r, getElem?_lt hp, hr, by rw [hok]; rfl⟩)
+
+theorem frontStep_frecInv {v : Variant} {w : World} {u : Url} {st : St} {i : Nat} {p : PathIn}
+    (hp : w.paths[i]? = some p) (hplc : hostPlc w p.host = .frontend)
+    (hu : hostUrl w p.host = .val u) (hs : Sorted st.binds) (h : FrecInv v w st.frec st.binds) :
+    FrecInv v w (frontStep v w u (hostSignin w p.host) st i).frec
+      (frontStep v w u (hostSignin w p.host) st i).binds := by
+  obtain ⟨_, h2, h3⟩ := setAuth_spec (ext := w.isExternal) (lua := w.hasLua) (rs := w.rangeStart)
+    (re := w.rangeEnd) (used := usedOf v w st) (r0 := {}) (u := u) (signin := hostSignin w p.host) hs
+  have hsurv := frecInv_survive h h2
+  intro j r hr
+  simp only [frontStep, upd] at hr
+  by_cases hj : j = i
+  · subst hj
+    rw [if_pos rfl] at hr
+    injection hr with hr
+    refine ⟨p, u, hp, hplc, hu, ?_⟩
+    rcases h3 with h3 | ⟨P, h3, hb, hres⟩
+    · exact Or.inl (by rw [← hr]; exact h3)
+    · exact Or.inr ⟨P, by rw [← hr]; exact h3, hres, fun _ => hb⟩
+  · rw [if_neg hj] at hr
+    exact hsurv j r hr
+
+theorem authStep_frec {v : Variant} {w : World} {st : St} (i : Nat) :
+    (authStep v w st i).frec = st.frec := by
+  unfold authStep
+  split
+  · rfl
+  · split <;> rfl
+
+theorem oauthStep_frec {v : Variant} {w : World} {st : St} (i : Nat) :
+    (oauthStep v w st i).frec = st.frec := by
+  unfold oauthStep
+  split <;> rfl
+
+theorem oauthStep_binds {v : Variant} {w : World} {st : St} (i : Nat) :
+    (oauthStep v w st i).binds = st.binds := by
+  unfold oauthStep
+  split <;> rfl
+
+theorem authStep_frecInv {v : Variant} {w : World} {st : St} (i : Nat) (hs : Sorted st.binds)
+    (h : FrecInv v w st.frec st.binds) :
+    FrecInv v w (authStep v w st i).frec (authStep v w st i).binds := by
+  rw [authStep_frec]
+  unfold authStep
+  split
+  · exact h
+  · rename_i p hp
+    split
+    · rename_i u _ _
+      obtain ⟨_, h2, _⟩ := setAuth_spec (ext := w.isExternal) (lua := w.hasLua) (rs := w.rangeStart)
+        (re := w.rangeEnd) (used := usedOf v w st) (r0 := st.brec i) (u := u) (signin := p.signin) hs
+      exact frecInv_survive h h2
+    · exact h
+
+/-- both invariants together -/
+def Inv2 (v : Variant) (w : World) (st : St) : Prop := Inv w st ∧ FrecInv v w st.frec st.binds
+
+theorem foldl_inv_mem {I : St → Prop} (step : St → Nat → St) :
+    ∀ (l : List Nat) (st : St), (∀ st i, i ∈ l → I st → I (step st i)) → I st → I (l.foldl step st) := by
+  intro l
+  induction l with
+  | nil => intro st _ h; exact h
+  | cons i l ih =>
+    intro st hstep h
+    exact ih _ (fun st j hj => hstep st j (List.mem_cons_of_mem _ hj)) (hstep st i List.mem_cons_self h)
+
+theorem hostPhase_inv2 {v : Variant} {w : World} {st : St} (h : Nat) (hi : Inv2 v w st) :
+    Inv2 v w (hostPhase v w st h) := by
+  unfold hostPhase
+  split
+  · rename_i u hplc hurl
+    refine foldl_inv_mem (I := Inv2 v w) _ _ _ ?_ hi
+    intro st i hmem hst
+    obtain ⟨p, hp, hh⟩ := mem_idxsWhere.mp hmem
+    have hh : p.host = h := by simpa using hh
+    subst hh
+    exact ⟨frontStep_inv i hst.1, frontStep_frecInv hp hplc hurl hst.1.1 hst.2⟩
+  · exact hi
+
+theorem backendPhase_inv2 {v : Variant} {w : World} {st : St} (b : Nat) (hi : Inv2 v w st) :
+    Inv2 v w (backendPhase v w st b) := by
+  unfold backendPhase
+  refine foldl_inv_mem (I := Inv2 v w) _ _ _ ?_ (foldl_inv_mem (I := Inv2 v w) _ _ _ ?_ hi)
+  · intro st i _ hst
+    refine ⟨oauthStep_inv i hst.1, ?_⟩
+    rw [oauthStep_frec, oauthStep_binds]
+    exact hst.2
+  · intro st i _ hst
+    exact ⟨authStep_inv i hst.1, authStep_frecInv i hst.1.1 hst.2⟩
+
+theorem run_inv2 (v : Variant) (w : World) (ho bo : List Nat) : Inv2 v w (run v w ho bo) := by
+  unfold run
+  refine foldl_inv_mem (I := Inv2 v w) _ _ _ (fun st b _ => backendPhase_inv2 b)
+    (foldl_inv_mem (I := Inv2 v w) _ _ _ (fun st h _ => hostPhase_inv2 h) ⟨inv_init w, ?_⟩)
+  intro i r hr
+  cases hr
+
+/-! ### a visited frontend host leaves a record on each of its paths -/
+
+theorem frontStep_isSome {v : Variant} {w : World} {u : Url} {sg : Bool} {st : St} {i j : Nat}
+    (h : (st.frec i).isSome = true ∨ j = i) : ((frontStep v w u sg st j).frec i).isSome = true := by
+  simp only [frontStep, upd]
+  by_cases hj : i = j
+  · rw [if_pos hj]; rfl
+  · rw [if_neg hj]
+    rcases h with h | h
+    · exact h
+    · exact absurd h.symm hj
+
+theorem foldl_frontStep_isSome {v : Variant} {w : World} {u : Url} {sg : Bool} {i : Nat} :
+    ∀ (l : List Nat) (st : St), ((st.frec i).isSome = true ∨ i ∈ l) →
+      (((l.foldl (frontStep v w u sg) st)).frec i).isSome = true := by
+  intro l
+  induction l with
+  | nil =>
+    intro st h
+    rcases h with h | h
+    · exact h
+    · cases h
+  | cons j l ih =>
+    intro st h
+    simp only [List.foldl_cons]
+    apply ih
+    rcases h with h | h
+    · exact Or.inl (frontStep_isSome (Or.inl h))
+    · rcases List.mem_cons.mp h with h | h
+      · exact Or.inl (frontStep_isSome (Or.inr h.symm))
+      · exact Or.inr h
+
+theorem hostPhase_isSome_mono {v : Variant} {w : World} {st : St} {h i : Nat}
+    (hs : (st.frec i).isSome = true) : ((hostPhase v w st h).frec i).isSome = true := by
+  unfold hostPhase
+  split
+  · exact foldl_frontStep_isSome _ _ (Or.inl hs)
+  · exact hs
+
+theorem hostPhase_sets {v : Variant} {w : World} {st : St} {i : Nat} {p : PathIn} {u : Url}
+    (hp : w.paths[i]? = some p) (hplc : hostPlc w p.host = .frontend)
+    (hu : hostUrl w p.host = .val u) : ((hostPhase v w st p.host).frec i).isSome = true := by
+  unfold hostPhase
+  rw [hplc, hu]
+  exact foldl_frontStep_isSome _ _ (Or.inr (mem_idxsWhere.mpr ⟨p, hp, by simp⟩))
+
+theorem backendPhase_frec {v : Variant} {w : World} {st : St} (b : Nat) :
+    (backendPhase v w st b).frec = st.frec := by
+  unfold backendPhase
+  have h1 : ∀ (l : List Nat) (s : St), (l.foldl (authStep v w) s).frec = s.frec := by
+    intro l
+    induction l with
+    | nil => intro s; rfl
+    | cons i l ih => intro s; simp only [List.foldl_cons]; rw [ih, authStep_frec]
+  have h2 : ∀ (l : List Nat) (s : St), (l.foldl (oauthStep v w) s).frec = s.frec := by
+    intro l
+    induction l with
+    | nil => intro s; rfl
+    | cons i l ih => intro s; simp only [List.foldl_cons]; rw [ih, oauthStep_frec]
+  rw [h2, h1]
+
+theorem run_frec_isSome {v : Variant} {w : World} {ho bo : List Nat} {i : Nat} {p : PathIn} {u : Url}
+    (hp : w.paths[i]? = some p) (hho : p.host ∈ ho) (hplc : hostPlc w p.host = .frontend)
+    (hu : hostUrl w p.host = .val u) : ((run v w ho bo).frec i).isSome = true := by
+  unfold run
+  have hb : ∀ (l : List Nat) (s : St), (l.foldl (backendPhase v w) s).frec = s.frec := by
+    intro l
+    induction l with
+    | nil => intro s; rfl
+    | cons b l ih => intro s; simp only [List.foldl_cons]; rw [ih, backendPhase_frec]
+  rw [hb]
+  have hh : ∀ (l : List Nat) (s : St), ((s.frec i).isSome = true ∨ p.host ∈ l) →
+      ((l.foldl (hostPhase v w) s).frec i).isSome = true := by
+    intro l
+    induction l with
+    | nil =>
+      intro s h
+      rcases h with h | h
+      · exact h
+      · cases h
+    | cons h l ih =>
+      intro s hs
+      simp only [List.foldl_cons]
+      apply ih
+      rcases hs with hs | hs
+      · exact Or.inl (hostPhase_isSome_mono hs)
+      · rcases List.mem_cons.mp hs with hs | hs
+        · exact Or.inl (hs ▸ hostPhase_sets hp hplc hu)
+        · exact Or.inr hs
+  exact hh _ _ (Or.inr hho)
+
+/-! ### the frontend rules that reach a request equal to the path -/
+
+theorem flatMap_single {α β} (f : α → List β) (i : α) : ∀ (l : List α), l.Nodup → i ∈ l →
+    (∀ j ∈ l, j ≠ i → f j = []) → l.flatMap f = f i := by
+  intro l
+  induction l with
+  | nil => intro _ hi; cases hi
+  | cons x xs ih =>
+    intro hn hi hz
+    have hx : x ∉ xs ∧ xs.Nodup := by simpa [List.nodup_cons] using hn
+    rw [List.flatMap_cons]
+    by_cases hxi : x = i
+    · subst hxi
+      have : xs.flatMap f = [] := by
+        rw [List.flatMap_eq_nil_iff]
+        intro j hj
+        exact hz j (List.mem_cons_of_mem _ hj) (fun e => hx.1 (e ▸ hj))
+      rw [this, List.append_nil]
+    · have hi' : i ∈ xs := by
+        rcases List.mem_cons.mp hi with h | h
+        · exact absurd h.symm hxi
+        · exact h
+      rw [hz x List.mem_cons_self hxi, List.nil_append]
+      exact ih hx.2 hi' (fun j hj => hz j (List.mem_cons_of_mem _ hj))
+
+theorem aclMatch_front_own (p : PathIn) :
+    aclMatch (frontCond p).1 (frontCond p).2 p.key = true := by
+  simp [aclMatch, frontCond]
+
+theorem aclMatch_front_other {q : PathIn} {s : String} (h1 : q.hamatch ≠ s) (h2 : q.key ≠ s) :
+    aclMatch (frontCond q).1 (frontCond q).2 s = false := by
+  simp [aclMatch, frontCond, Ne.symm h1, Ne.symm h2]
+
+/-- a request whose base equals the key of path `i` meets the rules of the record of path `i`
+only, when no other path has that key and no match word equals it -/
+theorem frontRules_own {w : World} {frec : Nat → Option AuthRec} {i : Nat} {p : PathIn} {r : AuthRec}
+    (hp : w.paths[i]? = some p) (hr : frec i = some r)
+    (hkeys : ∀ (j : Nat) (q : PathIn), w.paths[j]? = some q → j ≠ i → q.key ≠ p.key)
+    (hham : ∀ (j : Nat) (q : PathIn), w.paths[j]? = some q → q.hamatch ≠ p.key) :
+    frontRules w frec p.key = rulesOf r := by
+  unfold frontRules
+  rw [flatMap_single _ i _ List.nodup_range (List.mem_range.mpr (getElem?_lt hp))]
+  · rw [hp, hr]
+    simp only
+    rw [aclMatch_front_own, if_pos rfl]
+  · intro j _ hji
+    cases hq : w.paths[j]? with
+    | none => rfl
+    | some q =>
+      cases hf : frec j with
+      | none => rfl
+      | some r' =>
+        simp only
+        rw [aclMatch_front_other (hham j q hq) (hkeys j q hq hji)]
+        rfl
+
 end HapVerif.C18
